@@ -130,7 +130,14 @@ class Flow(object):
                                                                                        'serialize_instances', 'serialize_unique_identifiers',
                                                                                        'serialize_database') and len(e.args) == 1 and src(e.args[0]) == M:
                 return list(me.emission(e.func.id))
-            return emit.flatten(e)
+            out = []
+            for p_ in emit.flatten(e):
+                # '%s%s' % (a, b), str.format(..): the holes are texts of their own
+                if p_[0] == 'hole' and p_[1] is not e and (len(p_) < 3 or p_[2] == 's') and isinstance(p_[1], (ast.Call, ast.BinOp)):
+                    out.extend(rec(p_[1]))
+                else:
+                    out.append(p_)
+            return out
         return rec(expr)
 
     # -- items ------------------------------------------------------------------------------------------
